@@ -173,6 +173,9 @@ def candidate_ops(world, rng=None, lookups=True):
             ops.append({"op": "childAtPath", "n": n, "path": "item/x"})
             ops.append({"op": "childAtPath", "n": n, "path": "item/p:x"})
             ops.append({"op": "childAtPath", "n": n, "path": "/item//item/"})
+            for cpath in ("item/x", "item/item", "/item/", "item/p:x", "q:item/x", "x/item", "nosuch/item", "item/nosuch/x",
+                          "p:x", "item/item/item"):
+                ops.append({"op": "childrenAtPath", "n": n, "path": cpath})
             for ce in e.children[:2]:
                 for ge in ce.children[:2]:
                     for gp in {ge.prefix, "p", "q"}:
@@ -248,6 +251,8 @@ def apply_real(world, op):
     elif k == "childAtPath":
         r = e.childAtPath(op["path"])
         return None if r is None else world.idof(r)
+    elif k == "childrenAtPath":
+        return [world.idof(r) for r in e.childrenAtPath(op["path"])]
     elif k == "getAttribute":
         r = e.getAttribute(op["name"])
         if r is None:
@@ -499,6 +504,11 @@ def widen(ctx):
 
 def witness(ctx, k):
     w = k["witness"]
+    if w.get("kind") == "children-at-path":
+        from suds.sax.parser import Parser
+        root = Parser().parse(string=b'<r xmlns:p="urn:p" xmlns:q="urn:q"><a><p:x/><q:x/><x/></a></r>').root()
+        got = [[str(c.qname()) for c in root.childrenAtPath(pth)] for pth in ("a/p:x", "/a/", "zz/x")]
+        return got != [["p:x"], ["a"], []]
     if w.get("kind") == "clone-text":
         from suds.sax.element import Element
         return Element("x").setText("hello").clone().getText() != "hello"
